@@ -49,26 +49,43 @@ TheoryOps == {"plus", "minus", "times", "toreal", "div", "pow", "bv_tonatural",
               "str_charat", "str_to_int", "int_to_str"}
 
 (***************************************************************************)
-(* Atoms (documented definition): the Boolean-sorted sub-terms that are not *)
-(* built by a Boolean connective, quantifier or Boolean ite at the top:     *)
-(* theory relations, Boolean symbols, Boolean-valued function applications  *)
-(* and Boolean-valued array selects.  Boolean constants are not atoms.      *)
-(* Atoms nested inside theory terms (an ite condition inside an arithmetic  *)
-(* term, a Boolean argument of a function) are atoms of the formula too.    *)
+(* Atoms (documented definition: "a boolean atom is either a boolean        *)
+(* variable or a theory atom"): descend through Boolean connectives,        *)
+(* quantifiers and Boolean-sorted ite; the atoms are the theory relations,  *)
+(* Boolean symbols, Boolean-valued function applications and Boolean-valued *)
+(* array selects met there.  Boolean constants are not atoms.               *)
 (***************************************************************************)
 RECURSIVE Atoms(_)
 Atoms(t) ==
     LET subs == UNION {Atoms(t.a[j]) : j \in 1..Len(t.a)} IN
-    CASE t.op \in Relations -> {t} \cup subs
-      [] t.op = "symbol" -> IF t.ty = TBool THEN {t} ELSE {}
-      [] t.op = "function" -> IF FunRet(t.ty) = TBool THEN {t} \cup subs ELSE subs
-      [] t.op = "array_select" -> IF TyF(t) = TBool THEN {t} \cup subs ELSE subs
-      [] OTHER -> subs
+    CASE t.op \in BoolOps \cup {"forall", "exists"} -> subs
+      [] t.op = "ite" -> subs                  \* only reached for Boolean-sorted ite
+      [] t.op \in Relations -> {t}
+      [] t.op \in {"symbol", "function", "array_select"} -> {t}
+      [] OTHER -> {}                           \* Boolean constants
 
 \* custom sorts occurring in a sort
 RECURSIVE SortsIn(_)
 SortsIn(ty) ==
     (IF ty.k = "Sort" THEN {ty} ELSE {}) \cup UNION {SortsIn(ty.a[j]) : j \in 1..Len(ty.a)}
+
+\* closure of a set of sorts under component sorts
+RECURSIVE SortClosure(_)
+SortClosure(ty) == {ty} \cup UNION {SortClosure(ty.a[j]) : j \in 1..Len(ty.a)}
+
+\* sorts occurring in a term: sorts of symbols (bound ones too), of the result and
+\* parameters of applied functions, of constants and of array-value indices are
+\* those of its leaves; composite sorts contribute their components
+RECURSIVE LeafSorts(_)
+LeafSorts(t) ==
+    LET subs == UNION {LeafSorts(t.a[j]) : j \in 1..Len(t.a)} IN
+    CASE t.op = "symbol" -> {t.ty}
+      [] t.op = "function" -> {t.ty.a[j] : j \in 1..Len(t.ty.a)} \cup subs
+      [] t.op \in {"forall", "exists"} -> {t.bv[j].ty : j \in 1..Len(t.bv)} \cup subs
+      [] t.op \in ConstOps -> {TyF(t)}
+      [] OTHER -> subs
+SortsOf(t) == UNION {SortClosure(ty) : ty \in LeafSorts(t)}
+CustomSortsOf(t) == {ty \in SortsOf(t) : ty.k = "Sort"}
 
 \* --- size measures (pysmt.oracles.SizeOracle)
 RECURSIVE TreeNodes(_)
@@ -82,11 +99,10 @@ RECURSIVE Depth(_)
 Depth(t) == 1 + MaxSeq([j \in 1..Len(t.a) |-> Depth(t.a[j])])
 SymbolsCount(t) == Cardinality({s \in SubTerms(t) : s.op = "symbol"})
 BoolDagNodes(t) ==
-    \* nodes reachable through Boolean connectives and quantifiers only
+    \* DAG size "considering theory atoms (relations) as leaves"
     LET RECURSIVE B(_)
-        B(u) == IF u.op \in BoolOps \cup {"forall", "exists"}
-                THEN {u} \cup UNION {B(u.a[j]) : j \in 1..Len(u.a)}
-                ELSE {u}
+        B(u) == IF u.op \in Relations THEN {u}
+                ELSE {u} \cup UNION {B(u.a[j]) : j \in 1..Len(u.a)}
     IN  Cardinality(B(t))
 
 =============================================================================
